@@ -66,3 +66,17 @@ reg("C10", "DESIGN.md#11", "abstract interpretation of create_checkpoint (guard/
     "of the tree, inert orphan handler, first-time operations checkpoint before user code, and the two information-flow conditions (guard reads the parent "
     "link; tree fed from history) which today are known findings.",
     "Completion instants relative to branches are not explored.")
+reg("C08", "DESIGN.md#9", "effect/purity rule + who-may-touch + abstract interpretation of context methods with bodies probed + attribute whitelist",
+    "Decides purity of the id function and that both inputs reach the hash, counter discipline, exactly one id per operation call drawn before the executor "
+    "and used for identifier and child-context parent, index-derived branch ids through the side-effect-free id function, whitelist use of the branch-owning "
+    "context, and id/parent copying by all 14 factories.",
+    "Assumes blake2b collision-freedom and that user code does not use one context from several threads.")
+reg("C17", "DESIGN.md#18", "abstract interpretation of Logger methods and of every context operation's exits + def-use of the replay decision",
+    "Decides that the underlying logger is reached only behind the replay gate with merged identifiers, derived loggers keep state and identifiers, every "
+    "operation is marked visited on the normal exit and on every exit with a catchable exception, and the initial replay decision depends on pagination data.",
+    "Emission counts for a concrete program/history are runtime; the contract about completed children of a completed context is not judged.")
+reg("C18", "DESIGN.md#19", "abstract interpretation of the handler wrapper over the whole exception lattice (handler table)",
+    "Decides the outcome of the wrapper for 'handler returns' and for each of the 23+ exception classes (incl. abstract Exception/BaseException), liveness of "
+    "each handler, well-formedness of every returned dictionary per status, retriable<->raise, stop-before-join on every exit, stop-flag observation by the "
+    "consumer loops, and ExecutionError for malformed payloads.",
+    "Concrete botocore classification is value-level; thread liveness at run time is not decided.")
